@@ -74,6 +74,7 @@ pub fn choose_enc(ch: &mut Chooser) -> XEnc {
         explicit_t_n: ch.flag("enc.explicit_t_n"),
         cell_attrs_reversed: ch.flag("enc.cell-attributes-in-the-order-t-s-r"),
         odd_table_part_names: false,
+        lean_markup: ch.flag("enc.relationships-with-end-tags-and-optional-counts-omitted"),
         sheet_subfolder: ch.flag("enc.sheet-parts-in-a-sub-folder"),
         empty_rows: ch.flag("enc.empty_row_elements"),
         reorder_members: ch.flag("enc.member_order"),
@@ -204,7 +205,7 @@ pub fn check(rep: &Report) {
     // differential check on the repository's own fixtures: both read paths agree on every sheet
     crate::props::corpus::range_vs_range_ref::<calamine::Xlsx<_>>(rep, &["xlsx", "xlsm", "xlam"]);
     let t = crate::thorough(&rep.tier);
-    rep.rule("logical sheet = anchor {A1, AB6, ZZ100, XFA1048573} x every set of <= k cells in a 3x4 window (quick: every third two-cell set) x 32 cell kinds (+ optional second sheet); encoding = 27 variation points (sheet parts in a sub-folder, cell attribute order, prefix, implicit row/cell r, dimension absent/exact/too small/too large/stale, target spelling, part-name and folder case, stored/deflated, t=n, empty row elements, member order, relationship ids not in sheet order, applyNumberFormat, .rels attribute order, rows never carrying r, text split by CDATA / comments, XML comments, optional neighbours of sheetData, boolean spelling, sst count, numFmt attribute order, General xf without numFmtId, indentation, 1904); per position set all choice vectors with <= 2 deviations (thorough: 3 on sheets of at most one cell) from (number cells, default encoding), plus the full encoding product on single-cell sheets; non-trivial = at least one non-default choice; distinct = by file bytes");
+    rep.rule("logical sheet = anchor {A1, AB6, ZZ100, XFA1048573} x every set of <= k cells in a 3x4 window (quick: every third two-cell set) x 32 cell kinds (+ optional second sheet); encoding = 28 variation points (Relationship elements with end tags, sheet parts in a sub-folder, cell attribute order, prefix, implicit row/cell r, dimension absent/exact/too small/too large/stale, target spelling, part-name and folder case, stored/deflated, t=n, empty row elements, member order, relationship ids not in sheet order, applyNumberFormat, .rels attribute order, rows never carrying r, text split by CDATA / comments, XML comments, optional neighbours of sheetData, boolean spelling, sst count, numFmt attribute order, General xf without numFmtId, indentation, 1904); per position set all choice vectors with <= 2 deviations (thorough: 3 on sheets of at most one cell) from (number cells, default encoding), plus the full encoding product on single-cell sheets; non-trivial = at least one non-default choice; distinct = by file bytes");
     rep.assume("generator emits only ECMA-376-legal variations listed in gen/xlsx.rs; r:-prefixed relationship ids; implicit r only where the cursor rule positions the element correctly");
     let kmax = if t { 3 } else { 2 };
     let dev = if t { 3 } else { 2 };
